@@ -22,6 +22,10 @@ enum V {
     DText(String),
     DView(Vec<V>),
     Frag(Vec<V>),
+    /// two dynamic regions, each empty until its flag is set, and a BATCH that sets both flags while the view is built
+    /// (first field: the flag of the first region is written first): the regions re-run when the batch ends — the one written
+    /// last first — and their elements take their hydration keys in that order, on a fresh and on a recycled root alike
+    Batch2(bool, Vec<V>, Vec<V>),
 }
 
 fn leak(s: &str) -> &'static str {
@@ -60,6 +64,7 @@ fn sx_v(v: &V) -> String {
         V::DText(s) => format!("(dtext {})", enc(s)),
         V::DView(c) => format!("(dview{})", l(c)),
         V::Frag(c) => format!("(frag{})", l(c)),
+        V::Batch2(ab, a, b) => format!("(batch2 {} (X{}) (Y{}))", if *ab { "ab" } else { "ba" }, l(a), l(b)),
     }
 }
 
@@ -124,6 +129,7 @@ fn rd_v(s: &Sx) -> Option<V> {
         "dtext" => V::DText(dec(&l[1])?),
         "dview" => V::DView(l[1..].iter().map(rd_v).collect::<Option<_>>()?),
         "frag" => V::Frag(l[1..].iter().map(rd_v).collect::<Option<_>>()?),
+        "batch2" => V::Batch2(matches!(&l[1], Sx::A(a) if a == "ab"), tail(&l[2], "X")?.iter().map(rd_v).collect::<Option<_>>()?, tail(&l[3], "Y")?.iter().map(rd_v).collect::<Option<_>>()?),
         _ => return None,
     })
 }
@@ -208,6 +214,14 @@ fn real_view(v: &V) -> View {
             }
         }
         V::Frag(c) => View::from(c.iter().map(real_view).collect::<Vec<View>>()),
+        V::Batch2(ab, a, b) => {
+            let (a, b, ab) = (a.clone(), b.clone(), *ab);
+            let (sa, sb) = (sycamore_reactive::create_signal(false), sycamore_reactive::create_signal(false));
+            let va = View::from_dynamic(move || if sa.get() { View::from(a.iter().map(real_view).collect::<Vec<View>>()) } else { View::new() });
+            let vb = View::from_dynamic(move || if sb.get() { View::from(b.iter().map(real_view).collect::<Vec<View>>()) } else { View::new() });
+            sycamore_reactive::batch(move || { if ab { sa.set(true); sb.set(true); } else { sb.set(true); sa.set(true); } });
+            View::from((va, vb))
+        }
     }
 }
 
@@ -353,6 +367,13 @@ fn v_to_n(v: &V, k: &mut u32, out: &mut Vec<N>) {
         V::DText(s) => out.push(N::TD(s.clone())),
         V::DView(c) => { out.push(N::M); let mut kids = vec![]; for x in c { v_to_n(x, k, &mut kids); } out.push(N::Dyn(kids)); out.push(N::M); }
         V::Frag(c) => for x in c { v_to_n(x, k, out) },
+        V::Batch2(ab, a, b) => {
+            let (mut ka, mut kb) = (vec![], vec![]);
+            // the dependents of the signal written LAST re-run first when the batch ends
+            if !*ab { for x in a { v_to_n(x, k, &mut ka); } for x in b { v_to_n(x, k, &mut kb); } }
+            else { for x in b { v_to_n(x, k, &mut kb); } for x in a { v_to_n(x, k, &mut ka); } }
+            out.extend([N::M, N::Dyn(ka), N::M, N::M, N::Dyn(kb), N::M]);
+        }
     }
 }
 fn wf_n(n: &N) -> bool {
@@ -538,6 +559,18 @@ pub fn generate(args: &Args) -> Vec<String> {
                 l.push(format!("ssr view (L {})", sx_v(&V::El { tag: tag.into(), attrs: vec![("title".into(), Some("t".into()))], battrs: vec![(name.into(), v)], children: vec![] })));
             }
         }
+    }
+    // a batch while the view is built that makes two regions create their elements: keys in the order of the writes, the
+    // same on a fresh and on a recycled root
+    {
+        let e = |t: &str, c: Vec<V>| V::El { tag: t.into(), attrs: vec![], battrs: vec![], children: c };
+        let parts: Vec<Vec<V>> = vec![vec![e("p", vec![])], vec![e("b", vec![e("i", vec![])]), e("u", vec![])], vec![V::Text("t".into()), e("span", vec![V::DText("d".into())])], vec![]];
+        for a in &parts { for b in &parts { for ab in [true, false] {
+            let v = V::Batch2(ab, a.clone(), b.clone());
+            l.push(format!("ssr view (L {})", sx_v(&v)));
+            l.push(format!("ssr view (L {} {})", sx_v(&e("div", vec![e("h1", vec![]), v.clone(), e("hr", vec![])])), sx_v(&e("footer", vec![]))));
+            l.push(format!("ssr view (L {})", sx_v(&V::DView(vec![e("div", vec![]), V::Batch2(!ab, b.clone(), a.clone()), v.clone()]))));
+        } } }
     }
     let n = if thorough { 400_000 } else { 12_000 };
     for i in 0..n {
